@@ -92,6 +92,8 @@ def atom(t, X):
     f, v = t["f"], t["v"]
     a = X[v[0]]
     b = X[v[-1]]
+    if f == "one":
+        return sp.Integer(1)
     if f == "lin":
         return a / 2
     if f == "sq":
@@ -1241,6 +1243,39 @@ GD2 = dict(dim=2,
            off=[], points=[[[3, 4], [-2, 3]], [[-5, 7], [1, 2]]])
 
 
+# structurally special metrics (fixed cases only): null coordinates, where an
+# inverse-metric component vanishes identically while the metric component
+# does not (g_vv = -f, g_vr = 1, g_rr = 0 => g^vv = 0), and products with a
+# flat factor, where Ricci components vanish identically while g_ij R does not
+GNULL2 = dict(dim=2,
+              diag=[dict(sign=-1, D=1, terms=[T((1, 2), "lin", 1),
+                                              T((1, 3), "mix", 0, 1)]),
+                    dict(sign=1, D=0, terms=[])],
+              off=[dict(i=0, j=1, terms=[T((1, 1), "one", 0)])],
+              points=[[[3, 4], [2, 3]], [[-5, 7], [1, 2]]])
+GNULL3 = dict(dim=3,
+              diag=[dict(sign=-1, D=1, terms=[T((1, 2), "lin", 1),
+                                              T((1, 3), "mix", 0, 1)]),
+                    dict(sign=1, D=0, terms=[]),
+                    dict(sign=1, D=2, terms=[T((1, 1), "sq", 1)])],
+              off=[dict(i=0, j=1, terms=[T((1, 1), "one", 0)])],
+              points=[[[3, 4], [2, 3], [5, 7]], [[-5, 7], [1, 2], [-3, 2]]])
+GPROD3 = dict(dim=3,
+              diag=[dict(sign=1, D=1, terms=[]),
+                    dict(sign=1, D=3, terms=[T((1, 2), "sq", 2)]),
+                    dict(sign=1, D=4, terms=[T((1, 3), "mix", 1, 2)])],
+              off=[],
+              points=[[[3, 4], [-2, 3], [5, 7]], [[-5, 7], [1, 2], [-3, 2]]])
+GPROD4 = dict(dim=4,
+              diag=[dict(sign=-1, D=1, terms=[]),
+                    dict(sign=1, D=3, terms=[T((1, 2), "sq", 2)]),
+                    dict(sign=1, D=4, terms=[T((1, 3), "mix", 1, 2)]),
+                    dict(sign=1, D=2, terms=[])],
+              off=[],
+              points=[[[3, 4], [-2, 3], [5, 7], [1, 5]],
+                      [[-5, 7], [1, 2], [-3, 2], [4, 3]]])
+
+
 def fixed(metric_, simplify, order, **kw):
     return dict(metric_, simplify=simplify, order=list(order), **kw)
 
@@ -1265,7 +1300,12 @@ def subchecks(tier):
                      fixed(G4, False, UDDD_FIRST),
                      fixed(G4T, False, DIRECT_FIRST),
                      fixed(G3R, False, DIRECT_FIRST),
-                     fixed(G2, False, UDDD_FIRST)],
+                     fixed(G2, False, UDDD_FIRST),
+                     fixed(GNULL2, False, DIRECT_FIRST),
+                     fixed(GNULL3, False, DIRECT_FIRST),
+                     fixed(GNULL3, False, UDDD_FIRST),
+                     fixed(GPROD3, False, DIRECT_FIRST),
+                     fixed(GPROD4, False, UDDD_FIRST)],
             shards=8 if q else 16, shrink_quick=False, max_rounds=4),
         Sub("order_indep", order_cases, make_test_pair(tier, "order"),
             32 if q else 400,
@@ -1281,7 +1321,9 @@ def subchecks(tier):
                                       "Riemann_uddd", "Riemann_down",
                                       "Ricci_down", "Einstein_down"]),
                      fixed(G3S, True, DIRECT_FIRST[:4]),
-                     fixed(G3D, True, UDDD_FIRST)],
+                     fixed(G3D, True, UDDD_FIRST),
+                     fixed(GNULL2, True, DIRECT_FIRST),
+                     fixed(GPROD3, True, UDDD_FIRST)],
             shards=4 if q else 16, shrink_quick=False, max_rounds=2),
         Sub("simplify_indep", case_strategy(s_sizes, True),
             make_test_pair(tier, "simplify"), 8 if q else 48,
